@@ -117,6 +117,7 @@ class Ctx:
 
 
 CUR = None
+PATH_RESET_HOOKS = []      # callables run before every path (process-wide state of the code under test)
 
 
 def cur():
@@ -195,6 +196,8 @@ def explore(fn, prefixes=((),), max_paths=None, deadline=None):
            (deadline is not None and time.time() > deadline):
             break
         prefix = work.pop()
+        for hook in PATH_RESET_HOOKS:
+            hook()
         ctx = Ctx(prefix)
         CUR = ctx
         try:
